@@ -53,6 +53,30 @@ CHECKS = {
    technique="deterministic simulation family S-A with input-stream faults: noise/whitespace/unknown-token injection compared metamorphically against the clean script, and end-of-input injected at every command boundary of each script (enumerated) plus sampled mid-line offsets",
    text="For each generated timing-free script: a noisy twin must produce the same transcript and probed state; stdin is closed at every command boundary (exhaustive per script) and at sampled mid-line offsets and the process must end (exit event) rather than keep reading; quit must be followed by exit and no output; every isready gets exactly one readyok.",
    note="Exhaustive only over the EOF boundaries of the scripts drawn; scripts and noise placement are sampled. Noise is valid UTF-8 not beginning with a known command word."),
+ "C07": dict(level="fault_enumeration", design="5/C07",
+   technique="deterministic simulation family S-B: the real get_best_move under a scripted clock that expires at the k-th query, for every k of each sampled position (crash-point enumeration), compared with a reference run under an unlimited clock",
+   text="For each sampled position (half with a game history in the repetition record) the clock is made to expire at every query index k in [0, K] (all k when K <= 1500; otherwise all k <= 300, +-3 around every send/info boundary and 300 sampled). Per k: no panic; boards handed back are a prefix of the unlimited run's (one legal first-in-ordering board when nothing completed); info lines are a prefix; the repetition record is unchanged; no sentinel in any score.",
+   note="Exhaustive over expiry points only for the positions drawn (and only when K <= 1500); positions are sampled; search depth in simulation is <= 3 (4 in thorough). The unlimited-clock reference is itself anchored by C12 and C18."),
+ "C10": dict(level="exploration", design="5/C10",
+   technique="deterministic simulation families S-C (real position handler vs a multiset model over shuffle-rich histories) and S-B (real search under a scripted clock on roots offering a repetition)",
+   text="(i) after the real position handler has replayed histories with up to 100 repetitions the record must hold exactly the occurrence count of every position and nothing else (a dirty table from an earlier command is cleared first); (ii) on roots where a clearly worse mover can step into a position that already occurred 2, 3 or 4 times, every completed depth must report a score >= 0.",
+   note="Counts are compared by the from-scratch key of the referee position; zero-count entries are treated as absent."),
+ "C11": dict(level="exploration", design="5/C11",
+   technique="deterministic simulation family S-B: real search to depth 3 under a scripted clock on generated near-mate positions; oracle = independent AND/OR mate solver on the referee",
+   text="Small positions near mate/stalemate are classified by the solver; a mate in one must be in hand from the end of iteration 1 on, a move into mate in one must not be in hand from the end of iteration 2 on when a safe move exists, every positive mate announcement and every final negative one must be true (verified up to mate in 3).",
+   note="Mate claims beyond the solver bound are counted as unverified, never as violations. 'mated in N' on an interim line (best line so far) is not judged; the quantifier is over completed depths."),
+ "C12": dict(level="exploration", design="5/C12",
+   technique="deterministic simulation family S-B: real search under an unlimited scripted clock vs a plain full-window negamax written in the harness over the engine's own generator and evaluation",
+   text="For depths 1-3 of each sampled position (with and without history) the engine's final score equals the exact minimax value computed without any pruning or ordering, and the selected move attains it.",
+   note="The reference shares generate_moves/get_evaluation/is_check with the engine on purpose (the property is about its own evaluation); positions whose un-pruned reference exceeds 1.5M nodes are skipped and counted."),
+ "C15": dict(level="exploration", design="5/C15",
+   technique="input-corruption faults on the engine's one input stream (FEN text): seeded mutation of referee-printed FENs delivered to the loader, to the real position handler and to the real binary's command line; referee strict parser as the acceptance oracle",
+   text="Legal FENs with small and large counters must load field for field; ~25 corrupted variants per FEN plus every truncation/deletion/substitution point of two fixed FENs must never panic inside the loader; a sample goes through the real binary, which must exit 0 with a message.",
+   note="Weakest fit for this family (no schedule in it); kept because the failure is a crash of the running session. Strings are valid Unicode without NUL."),
+ "C18": dict(level="fault_enumeration", design="5/C18",
+   technique="deterministic simulation family S-B: every info line emitted at every injected expiry point of the C07 enumeration is checked against a strict grammar and score-bound oracle",
+   text="Same per-position expiry enumeration as C07; each line must match the grammar, depth >= 1 and non-decreasing, mate != 0, |cp| <= 100000 and never the sentinel, first PV move referee-legal, strictly increasing scores within a depth.",
+   note="Inherits C07's per-position exhaustiveness; the PV omits promotion letters (not judged)."),
 }
 
 NOT_APPLICABLE = [
